@@ -84,6 +84,7 @@ func c09Run(w *explore.Worker, c c09Case) {
 		delivered := 0 // data-fork bytes the server has been given so far
 		var obs []string
 
+		answered := false // whether the last upload request got any reply
 		request := func(resume bool) (refnum []byte, offset int, ok bool) {
 			fs := []ref.Fld{ref.FS(ref.FFileName, "up.bin"), ref.F(ref.FFilePath, ref.PathBytes("Uploads"))}
 			if resume {
@@ -94,6 +95,7 @@ func c09Run(w *explore.Worker, c c09Case) {
 			id := u.Req(ref.TUploadFile, fs...)
 			world.Quiet()
 			rep := u.Reply(id)
+			answered = rep != nil
 			if rep == nil || rep.Err != 0 {
 				return nil, 0, false
 			}
@@ -195,9 +197,25 @@ func c09Run(w *explore.Worker, c c09Case) {
 			return
 		}
 		if c.NoResume {
-			_, _, ok := request(true)
+			// a resume attempt while the server holds nothing of the file (the earlier connection died inside the
+			// 16-byte preamble, say): it is answered - refused, or granted from offset 0, in which case it completes
+			refnum, offset, ok := request(true)
+			if !answered {
+				fail("resume-request-not-answered", "the server holds no partial file: the resume request got no reply at all, neither an offset nor an error")
+			}
 			if _, err := os.Stat(final); err == nil {
 				fail("final-name-created-by-empty-resume", "")
+			}
+			if ok {
+				if offset != 0 {
+					fail("reported-resume-offset-wrong", fmt.Sprintf("nothing is stored, the server reports offset %d", offset))
+				}
+				conn := wd.DialTransfer("10.0.0.1:2001")
+				conn.Feed(append(ref.Preamble(refnum, 0), ref.FlatFile(info, data, rsrc)...))
+				world.Settle(10 * time.Second)
+				if got, err := os.ReadFile(final); err != nil || !bytes.Equal(got, data) {
+					fail("published-file-differs-from-what-was-sent", fmt.Sprintf("resume from offset 0: %v, %d bytes, sent %d", err, len(got), len(data)))
+				}
 			}
 			w.Outcome("noresume ok=" + fmt.Sprint(ok))
 			return
@@ -205,11 +223,20 @@ func c09Run(w *explore.Worker, c c09Case) {
 
 		attempts := append(append([]int(nil), c.Cuts...), -1) // -1 = uncut
 		for ai, cut := range attempts {
-			// the reference client resumes when the server holds a partial file (that is what the file
-			// list shows it), and starts afresh when nothing was stored
+			// the reference client asks to resume after every cut; when the server holds nothing of the file it may
+			// grant that from offset 0 or refuse it with an error reply, after which the client starts afresh
 			_, perr := os.Stat(partial)
-			resume := ai > 0 && perr == nil
+			resume := ai > 0
 			refnum, offset, ok := request(resume)
+			if resume && !answered {
+				fail("resume-request-not-answered", fmt.Sprintf("attempt %d: no reply at all (partial file present: %v)", ai, perr == nil))
+				return
+			}
+			if !ok && resume && perr != nil {
+				// refused with an error reply while nothing is stored: start afresh
+				resume = false
+				refnum, offset, ok = request(false)
+			}
 			if !ok {
 				fail("upload-request-refused", fmt.Sprintf("attempt %d (resume=%v)", ai, resume))
 				return
